@@ -34,6 +34,7 @@ class Built:
         self.log = []
         self.ds = {}
         self.cached_nodes = []
+        self.derived = []   # (base dataset name, derived Dataset object)
         self.cache_factory = cache_factory
         self.caches = {}
         for d in spec["defs"]:
@@ -208,6 +209,7 @@ class Built:
         # derived datasets carry no name of their own; give them their parent's so that log messages
         # (the only handle a LogRequest offers) identify the dataset
         derived.__qualname__ = base.__qualname__
+        self.derived.append((n["base"], derived))
         return derived
 
     def n_apply(self, n):
